@@ -120,7 +120,8 @@ def id_hooks(idr, full_id_body=None):
         idr["is_empty"].path: guard(lambda I, a: Cond("key", "empty(%s)" % a[0].key_)),
         idr["has_one_edge"].path: guard(lambda I, a: Cond("key", "one_edge(%s)" % a[0].key_)),
         idr["pop_edge"].path: guard(lambda I, a: GraphIdVal("pop(%s,«%s»)" % (a[0].key_, I.ent_of(a[1])))),
-        idr["contains_edges"].path: guard(lambda I, a: Arr(("edges(%s)" % a[0].key_,), lambda k: Num(Expr.leaf("$ix", k), ent=k), name="edges(%s)" % a[0].key_)),
+        idr["contains_edges"].path: guard(lambda I, a: Arr(("edges(%s)" % a[0].key_,), lambda k, _g=a[0].key_: Num(
+            Expr.leaf("$ix", k), ent=("%s∈edges(%s)" % (k, _g)) if k in ("first", "last") else k), name="edges(%s)" % a[0].key_)),
     }
     if full_id_body is not None:
         hooks[full_id_body.path] = lambda I, c, a: GraphIdVal("full") if a and isinstance(a[0], Model) and a[0].name == "tropical_graph" else NotImplemented
